@@ -6,6 +6,17 @@ props = [json.loads(l) for l in open(os.path.join(V, "properties.jsonl"))]
 
 # property -> (level text, level note, technique, design_ref)
 CLAIMED = {
+ "C03": ("TLC (MC_C03) runs every signature of the supported class (16 442 inputs: deps named generic / impl Trait / concrete / none, passed by "
+         "&, &'a or value; up to two further parameters owned, &T, &'a T, generic with inline or where bound, impl Trait, [u8; N]; lifetime "
+         "where-predicate; const generic; sync/async; unsafe / extern \"C\"; return unit, owned, borrowed from deps or argument, generic; fn, module of "
+         "one or two functions with different or equal generic names, static / dyn impl block) through generics collection - a shared accumulator, "
+         "one AnalyzeFn step per function - and signature conversion (SigConv.tla) and checks the static-semantics-lite of the emitted trait / impls "
+         "(no name declared twice, none on trait and method, no method lifetime in the trait's where-clause). Each replayed signature is expanded "
+         "by the real macro and compiled; a witness coerces the function and the generated trait method to ONE fn-pointer type written from the "
+         "original signature (async: both futures' Output ascribed); TLC (Trace_C03) judges rustc's verdicts and compares them with the prediction.",
+         "quick replays a TLC RandomSubset of 2 500 signatures (seeded by VERIF_SEED), thorough all; rustc decides type / borrow / lifetime checking; one design limitation (equal generic names in two module functions) is a known finding",
+         "TLA+ model of generics collection and signature conversion checked by TLC + replay with fn-pointer / Output compile witnesses validated by TLC",
+         "7/C03"),
  "C19": ("TLC (MC_C19) tags every name the generator refers to with how it is written (absolute path; method call resolved through the prelude "
          "or a where-clause bound; the macro's own parameters; user tokens; third-party output) and resolves the references one by one against every "
          "scope variant - nothing may be captured. Eleven programs (one per input mode / delegation kind) are rendered into each variant (clean; "
